@@ -17,6 +17,7 @@ import (
 	"sync"
 	"time"
 
+	"github.com/fabiolb/fabio/auth"
 	"github.com/fabiolb/fabio/config"
 	"github.com/fabiolb/fabio/proxy"
 	"github.com/fabiolb/fabio/route"
@@ -199,14 +200,19 @@ var globCache = route.NewGlobCache(100)
 // install builds a real proxy.HTTPProxy whose Lookup consults a table parsed by the real route.NewTable from
 // the given route commands ("UPSTREAM" in them is replaced by the upstream's address), and resets the recorder.
 func (e *c07env) install(cfg config.Proxy, routes string, rep *upReply) error {
+	return e.installWith(cfg, routes, rep, nil)
+}
+
+func (e *c07env) installWith(cfg config.Proxy, routes string, rep *upReply, schemes map[string]auth.AuthScheme) error {
 	routes = strings.ReplaceAll(routes, upstreamName, e.upAddr)
 	tbl, err := route.NewTable(bytes.NewBufferString(routes))
 	if err != nil {
 		return fmt.Errorf("route table: %v", err)
 	}
 	p := &proxy.HTTPProxy{
-		Config:    cfg,
-		Transport: http.DefaultTransport,
+		Config:      cfg,
+		Transport:   http.DefaultTransport,
+		AuthSchemes: schemes,
 		Lookup: func(r *http.Request) *route.Target {
 			return tbl.Lookup(r, "", route.Picker["rr"], route.Matcher["prefix"], globCache, false)
 		},
